@@ -28,7 +28,9 @@ inline void apply_residue(const CaseOpt &o)
 // in run 1 of a differential case exactly that continuation is placed after the datagram, in run 0 zeros
 struct ScopedResidue {
 	int mode; uint8_t byte; hz::Bytes data; bool active;
-	ScopedResidue(const CaseOpt &o, const hz::Bytes &continuation) : mode(sim::W.residue_mode), byte(sim::W.residue_byte), data(sim::W.residue_data), active(o.force_residue && o.variant == 1)
+	// `plain` = what to do in a non-differential run (C05 / C06 proper): true places the continuation as well (the receive buffer
+	// then looks as if the complete frame had been received just before, which a peer can arrange by sending it)
+	ScopedResidue(const CaseOpt &o, const hz::Bytes &continuation, bool plain = false) : mode(sim::W.residue_mode), byte(sim::W.residue_byte), data(sim::W.residue_data), active(o.force_residue ? o.variant == 1 : plain)
 	{ if (active) { sim::W.residue_mode = 2; sim::W.residue_data = continuation; if (sim::W.residue_data.empty()) sim::W.residue_data.push_back(0); } }
 	~ScopedResidue() { if (active) { sim::W.residue_mode = mode; sim::W.residue_byte = byte; sim::W.residue_data = data; } }
 };
